@@ -1,10 +1,10 @@
 #!/bin/bash
-# tools/silent_new.sh <first> <last>: run the refactors S<first>..S<last> only
+# tools/silent_new.sh <first> <last>: run the refactors S<first>..S<last> only (WT=<worktree> to choose the scratch worktree)
 cd /verif
-WT=/tmp/wt_silent
+WT=${WT:-/tmp/wt_silent}
 [ -d $WT ] || git -C /repo worktree add -q --detach $WT HEAD
 for d in selftest/silent/S*.diff; do
-  n=$(basename $d .diff); k=$((10#${n:1:2}))
+  n=$(basename $d .diff); k=${n#S}; k=${k%%_*}; k=$((10#$k))
   (( k >= $1 && k <= $2 )) || continue
   echo "== $n"
   python3 tools/mutrun.py $WT /verif/$d 2>&1 | grep -v " ok " | cut -c1-400
